@@ -7,6 +7,7 @@
     recover converts every panic whose value implements [error]); values of the model are never nil.
     [lengths_bounded bs] is the property's hypothesis "declared lengths bounded by the input size". *)
 From Dawn Require Import Pickle.Model Pickle.Proofs_C15.
+Require Dawn.Build.Model Dawn.Build.Proofs_Skip.
 Open Scope N_scope.
 
 (** For every unpickler and every byte string the decoder answers within length+1 steps, and never with (nil, nil). *)
@@ -50,6 +51,20 @@ Print Assumptions reason_total.
 Theorem diff_reason_total : forall has, exists r, diff_reason has = Ok r.
 Proof. exact diff_reason_total_proof. Qed.
 Print Assumptions diff_reason_total.
+
+(** "... never as a target silently treated as up to date": in the engine model (Build/Model.v) the persisted records of
+    a world are arbitrary data; for ANY such world, a build (any mode, not killed) that reports a target up to date found
+    in that target's own record exactly the stamp of its present environment and no re-run mark -- a record corrupted into
+    anything else makes the target execute (or the load fail). Stamp equality in the model is the byte equality of stamps
+    that function.diffEnv tests first since a7d2e7f; that the implementation behaves so on real corrupted record files is
+    what the record-layer harness (zz_verif_c15_record_test.go) decides. *)
+Theorem corrupted_record_never_silently_up_to_date :
+  forall (c : Dawn.Build.Model.bcfg) (w : Dawn.Build.Model.world) l0 l,
+    Dawn.Build.Model.c_crashed c = false ->
+    In (Dawn.Build.Model.EUpToDate l) (Dawn.Build.Model.o_events (Dawn.Build.Model.build c w l0)) ->
+    Dawn.Build.Proofs_Skip.accepted (Dawn.Build.Model.w_proj w) w l.
+Proof. exact Dawn.Build.Proofs_Skip.up_to_date_only_with_current_stamp. Qed.
+Print Assumptions corrupted_record_never_silently_up_to_date.
 
 (** the hypothesis is satisfiable and not vacuous *)
 Example lengths_bounded_ex : lengths_bounded [opBINUNICODE; 1; 0; 0; 0; 97; opSTOP] = true.
